@@ -271,6 +271,12 @@ func checkEdits(c *Ctx, deletes bool) {
 						it, via = it2, fmt.Sprintf("element-route %d", rt>>2)
 					}
 				}
+				// a second replacement through the SAME iterator value must do what it does through an
+				// iterator fetched anew for that position (two clones of the current state; judged
+				// without the model)
+				if r.Chance(1, 4) {
+					c.sameIterTwice(r, h, op)
+				}
 				cb, err, pan := safeApply(op, &it)
 				h.ops = append(h.ops, fmt.Sprintf("k=%d path=%s %s via %s", op.K, pathStr(op.Path), op.Desc, via))
 				info := map[string]interface{}{"doc_hex": fmt.Sprintf("%x", h.doc), "doc_text": printable(h.doc), "copy": h.copy, "history": strings.Join(h.ops, " ; "), "state_before": trunc(h.before, 1500), "oracle": trunc(ans[i], 1500)}
@@ -336,4 +342,49 @@ func safeApply(op *editOp, it *simdjson.Iter) (cb string, err error, pan string)
 	}()
 	cb, err = op.apply(it)
 	return
+}
+
+// sameIterTwice: on two clones of the history's current state apply the picked operation and
+// then SetBool / SetNull on the same position — on clone A through the very iterator value
+// that performed the first operation, on clone B through an iterator fetched afresh.
+func (c *Ctx) sameIterTwice(r *Rng, h *history, op *editOp) {
+	defer func() { recover() }()
+	if op.Kind == "delarr" || op.Kind == "delobj" {
+		return
+	}
+	ca, cb := h.pj.Clone(nil), h.pj.Clone(nil)
+	rt := r.Intn(1 << 12)
+	fetch := func(pj *simdjson.ParsedJson) (simdjson.Iter, bool) {
+		it := iterAt(pj, op.K)
+		if rt%2 == 1 {
+			if it2, ok := iterByPath(pj, op.Path, rt>>1); ok && it2.Type() == it.Type() {
+				return it2, true
+			}
+		}
+		return it, true
+	}
+	ia, _ := fetch(ca)
+	ib, _ := fetch(cb)
+	_, ea, pa := safeApply(op, &ia)
+	_, eb, pb := safeApply(op, &ib)
+	if pa != "" || pb != "" || (ea == nil) != (eb == nil) || ea != nil {
+		return
+	}
+	second := func(it *simdjson.Iter) error {
+		if rt%3 == 0 {
+			return it.SetNull()
+		}
+		return it.SetBool(rt%3 == 1)
+	}
+	e2a := second(&ia) // the same iterator value
+	ib2, _ := fetch(cb)
+	e2b := second(&ib2) // fetched anew
+	da, _ := dumpDoc(ca)
+	db, _ := dumpDoc(cb)
+	c.Ev.Count("same-iterator-twice", []byte(fmt.Sprint(rt, op.Desc, string(h.doc))), true)
+	if (e2a == nil) != (e2b == nil) || da != db || !eqU64(ca.Tape, cb.Tape) {
+		c.Violate("edit", "a second replacement through the same iterator value differs from the same replacement through an iterator fetched anew", "edit-same-iterator",
+			map[string]interface{}{"doc_hex": fmt.Sprintf("%x", h.doc), "doc_text": printable(h.doc), "history": strings.Join(h.ops, " ; "), "first": op.Desc, "second": fmt.Sprintf("SetNull/SetBool variant %d", rt%3),
+				"same_iterator": trunc(da, 300), "fresh_iterator": trunc(db, 300), "errors": fmt.Sprint(e2a, " / ", e2b)})
+	}
 }
